@@ -38,6 +38,31 @@
 #include <cpuid.h>
 #endif
 
+#if defined(SKINNY_C_VERIF) && SKINNY_X86_CPUID
+/* Verification hook: route the CPUID instruction through a function that
+   is supplied by the test driver so that back end selection can be pinned
+   or a different CPU simulated.  "has_subleaf" is zero when the caller
+   did not specify a value for ECX */
+extern void _skinny_verif_cpuid
+    (unsigned leaf, int has_subleaf, unsigned subleaf, unsigned regs[4]);
+#undef __cpuid
+#undef __cpuid_count
+#define __cpuid(level, a, b, c, d) \
+    do { \
+        unsigned verif_regs[4]; \
+        _skinny_verif_cpuid((level), 0, 0, verif_regs); \
+        (a) = verif_regs[0]; (b) = verif_regs[1]; \
+        (c) = verif_regs[2]; (d) = verif_regs[3]; \
+    } while (0)
+#define __cpuid_count(level, count, a, b, c, d) \
+    do { \
+        unsigned verif_regs[4]; \
+        _skinny_verif_cpuid((level), 1, (count), verif_regs); \
+        (a) = verif_regs[0]; (b) = verif_regs[1]; \
+        (c) = verif_regs[2]; (d) = verif_regs[3]; \
+    } while (0)
+#endif
+
 int _skinny_has_vec128(void)
 {
     int detected = 0;
